@@ -1,6 +1,7 @@
 """Rules over bt/backtest.py (date loop, data framing, reports) and the whole-program adjust() call-site table."""
 
 import ast
+import itertools
 
 from .. import sym
 from ..evalfn import SELF
@@ -122,7 +123,36 @@ def run_loop(chk, pid):
     host = "Backtest.run"
     chk.site()
     strat = lambda e: e.recv is not None and e.recv[0] == "fld" and e.recv[2] == "strategy" and canon(e.recv[1]) == canon(SELF)
-    calls = [e for e in S.events if e.kind == "call" and strat(e)]
+    all_calls = [e for e in S.events if e.kind == "call" and strat(e)]
+    # the loop may be written once or once per mode (e.g. with / without progress bar): every mode is checked on its own
+    mode_atoms = []
+    for e in all_calls:
+        for a_, p_ in plain(e.guard):
+            ca = canon(a_)
+            if isinstance(ca, tuple) and ca and ca[0] == "not":
+                ca = ca[1]
+            if (not sym.contains(ca, lambda n: n[0] == "fld" and n[2] in ("strategy", "has_run")) and not sym.contains(ca, lambda n: n[0] in ("elem", "res", "lc", "wl"))
+                    and ca not in mode_atoms):
+                mode_atoms.append(ca)
+    scenarios = [tuple(zip(mode_atoms, bits)) for bits in itertools.product((True, False), repeat=len(mode_atoms))] if len(mode_atoms) <= 3 else [()]
+    for scen in scenarios:
+        calls = [e for e in all_calls if not sym.inconsistent(sym.sat(tuple(plain(e.guard)) + scen))]
+        if calls:
+            _run_loop_scenario(chk, pid, S, fi, host, calls, scen)
+    calls = all_calls
+    setup = [e for e in calls if e.name == "setup"]
+    if pid in ("C11",):
+        hr = S.writes("has_run", SELF)
+        rets = [e for e in S.events if e.kind == "return" and any(p and a[0] == "fld" and a[2] == "has_run" for a, p in e.guard)]
+        ok = bool(rets) and bool(hr) and all(rets[0].seq < e.seq for e in calls) and canon(hr[0].value) == canon(sym.TRUE) and hr[0].seq < setup[0].seq
+        chk.ob("C11.R4", ok, BACKTEST, host, "has-run-gate", "a finished backtest asked to run again returns at once; the flag is set before anything runs", where=fi.where,
+               expected="if self.has_run: return; self.has_run = True; ... setup", found="%d early returns, %d flag writes" % (len(rets), len(hr)))
+        sb = bound_args(setup[0], chk.prog)
+        ok = setup[0].args and setup[0].args[0][0] == "fld" and setup[0].args[0][2] == "data" and canon(setup[0].args[0][1]) == canon(SELF)
+        chk.ob("C11.R1", ok, BACKTEST, host, "setup-with-framed-data", "the strategy is set up with the backtest's own framed copy of the data", where=setup[0].where)
+
+
+def _run_loop_scenario(chk, pid, S, fi, host, calls, scen):
     setup = [e for e in calls if e.name == "setup"]
     adjust = [e for e in calls if e.name == "adjust"]
     updates = [e for e in calls if e.name == "update"]
@@ -156,7 +186,7 @@ def run_loop(chk, pid):
                    where=fi.where, expected="update, run, update", found=", ".join(seq), sample={"sequence": seq})
             if len(loop_updates) >= 2 and pid in ("C08", "C01", "C02", "C07", "C03"):
                 second = loop_updates[-1]
-                extra = [l for l in plain(second.guard) if not sym.lit_holds(sym.sat(runs[0].guard), l[0], l[1])]
+                extra = [l for l in plain(second.guard) if not sym.lit_holds(sym.sat(tuple(runs[0].guard) + scen), l[0], l[1])]
                 chk.ob("C08.R1", not extra and runs[0].seq < second.seq, BACKTEST, host, "post-run-update-unconditional",
                        "after the algos ran the tree is updated unconditionally, so results do not depend on whether an algo happened to refresh", where=second.where,
                        expected="update(dt) right after run()", found=sym.fmt_guard(extra))
@@ -167,16 +197,7 @@ def run_loop(chk, pid):
             chk.ob("C16.R3", ok, BACKTEST, host, "run-gated-by-bankrupt", "a bankrupt strategy's algos are no longer run", where=r.where, expected="run() only under not strategy.bankrupt",
                    found=sym.fmt_guard(r.guard))
             first = loop_updates[0]
-            ok = first.seq < r.seq and not [l for l in plain(first.guard) if l not in plain(loop.guard0)]
+            ok = first.seq < r.seq and not [l for l in plain(first.guard) if l not in plain(loop.guard0) and not sym.lit_holds(sym.sat(scen), l[0], l[1])]
             chk.ob("C16.R3", ok, BACKTEST, host, "update-before-gate", "the strategy keeps being updated on every date (also after bankruptcy), before the gate is evaluated", where=first.where)
-            extra = [l for l in plain(r.guard) if not (l[0][0] == "fld" and l[0][2] == "bankrupt") and l not in plain(first.guard)]
+            extra = [l for l in plain(r.guard) if not (l[0][0] == "fld" and l[0][2] == "bankrupt") and l not in plain(first.guard) and not sym.lit_holds(sym.sat(scen), l[0], l[1])]
             chk.ob("C16.R3", not extra, BACKTEST, host, "run-gate-only-bankrupt", "a solvent strategy's algos run on every date", where=r.where, found=sym.fmt_guard(extra))
-    if pid in ("C11",):
-        hr = S.writes("has_run", SELF)
-        rets = [e for e in S.events if e.kind == "return" and any(p and a[0] == "fld" and a[2] == "has_run" for a, p in e.guard)]
-        ok = bool(rets) and bool(hr) and all(rets[0].seq < e.seq for e in calls) and canon(hr[0].value) == canon(sym.TRUE) and hr[0].seq < setup[0].seq
-        chk.ob("C11.R4", ok, BACKTEST, host, "has-run-gate", "a finished backtest asked to run again returns at once; the flag is set before anything runs", where=fi.where,
-               expected="if self.has_run: return; self.has_run = True; ... setup", found="%d early returns, %d flag writes" % (len(rets), len(hr)))
-        sb = bound_args(setup[0], chk.prog)
-        ok = setup[0].args and setup[0].args[0][0] == "fld" and setup[0].args[0][2] == "data" and canon(setup[0].args[0][1]) == canon(SELF)
-        chk.ob("C11.R1", ok, BACKTEST, host, "setup-with-framed-data", "the strategy is set up with the backtest's own framed copy of the data", where=setup[0].where)
